@@ -5,6 +5,7 @@ CONSTANTS
   L = 2000
   Step = 500
   MaxTime = 6000
+  Dev_GateUsesOldToken = FALSE
   Dev_ServerRekeyInPlace = FALSE
   Part = "relation"
 INIT Init
